@@ -165,7 +165,10 @@ func c13Enumerate(tier string, seed int64, emit func(string, any)) {
 		if len(cur) == maxSeg {
 			return
 		}
-		for _, s := range segs {
+		for si, s := range segs {
+			if len(cur) >= 2 && si >= len(tplLits)+2*25 {
+				break // third segments (thorough) come from the literals and the first 25 hole programs: the full cube does not fit any budget
+			}
 			if len(cur) > 0 && cur[len(cur)-1].Style == 0 && s.Style == 0 {
 				continue // adjacent literals are one literal
 			}
